@@ -28,12 +28,14 @@ def plan(tier, seed):
         seeds2 = [L[n] for n in ["D22c", "D23", "Hc22", "Sy22", "Un22c", "St32", "S33", "Td3", "K22", "H2c", "F4",
                                  "P3", "R0"]]
         small = [L["D22c"], L["D23"]]
+        ops1 = [L[n] for n in ["D22", "D22c", "D33", "D23", "D32c", "D13", "D31", "TL22", "S23", "Dg2c", "Td3", "I2", "Sc3",
+                               "P3", "H2c", "K22", "F1", "Hc22", "Sy22", "Un22c", "St32", "R0"]]
         return [
-            dict(seeds=all_leaves, operands=all_leaves, small=small, acts=ACTS, lvl=1, dim=12, forms=forms, stride=5),
-            dict(seeds=seeds2, operands=ops, small=small, acts=ACTS - {"Concatenated"}, lvl=2, dim=6, forms=forms,
+            dict(seeds=all_leaves, operands=ops1, small=small, acts=ACTS, lvl=1, dim=12, forms=forms, stride=5),
+            dict(seeds=seeds2[:10], operands=ops, small=small, acts=ACTS - {"Concatenated"}, lvl=2, dim=6, forms=forms,
                  stride=13),
             dict(seeds=all_leaves, operands=ops, small=small, acts=ACTS | {"Kronecker3", "Sum3"}, lvl=3, dim=9,
-                 forms=forms, stride=5, simulate=25),
+                 forms=forms, stride=5, simulate=12),
         ]
     ops = [L[n] for n in ["D22", "D23", "D32c", "Dg2c", "I2", "P3", "Sc2", "S33", "Hc22", "Un22c", "R0", "R1"]]
     small = [L["D22c"], L["Dg2"], L["D23"]]
